@@ -160,4 +160,40 @@ CLAIMS["C18"] = {
     "design_ref": "DESIGN.md §4 C18",
 }
 
+CLAIMS["C03"] = {
+    "technique": "decision-table rows and path rules (order of effects on every path) over resolved MIR",
+    "text": "Decides the structural clauses: Done/Fatal are sticky - State::drive returns them untouched without driving or emitting (R3.1); "
+            "request::Parser::parse clears its output then drives the state machine on every return path, with no early-out, and stores "
+            "StuckOnInput as Fatal (R3.2); the panic fallback is Fatal(Paniced) (R3.3); every Err exit of the stream parser's header "
+            "dispatch leaves the parser untouched, so the error repeats and nothing more is emitted (R3.4); decode failures are classified "
+            "identically at the three header sites - unknown version: error without consuming, unknown type: one reply and skip (R3.5); "
+            "the parser-error -> io::ErrorKind table is total and as documented (R3.6); conversions at non-final states fail with "
+            "Interrupted before any mutation (R3.7); stream::Parser::parse always enters its processing loop (R3.8). Does NOT decide "
+            "absence of panics (an inventory of panic-capable sites is reported as information) nor chunking-invariance of outcomes.",
+    "note": "Panic-freedom would need relational numeric reasoning across calls (declined in DESIGN.md §8).",
+    "design_ref": "DESIGN.md §4 C03",
+}
+CLAIMS["C05"] = {
+    "technique": "hand-off provenance and effect-order rules on enumerated MIR paths (with inlining of the parser's private helpers)",
+    "text": "Decides the structural part of each hand-off: into_request / into_stream_parser pass exactly (input buffer, input_len) and "
+            "convert only final states (R5.1, R5.2); the stream parser's constructor starts all cursors at 0 with free_start = that length; "
+            "into_request_parser / into_input return Err(Interrupted) untouched off a record boundary, otherwise discard buffered stream data "
+            "(parsed_start, gap_start <- 0), compact the raw region down, and only then read free_start for the hand-over; the request "
+            "parser's constructor stores that length and starts in the initial state (R5.3); move_input keeps exactly the unconsumed tail "
+            "(R5.4). Does NOT decide the behavioural consequence (k sequential requests == k separate connections).",
+    "note": "copy_within / Vec::truncate semantics of std trusted.",
+    "design_ref": "DESIGN.md §4 C05",
+}
+CLAIMS["C06"] = {
+    "technique": "path rule on request::Parser::parse, allocation-size provenance, expression-shape check",
+    "text": "Decides sentence 2 of the statement outright: on every return path of request::Parser::parse, after the drive and the "
+            "compaction, a non-final parser either has input_len != input.len() (so input_buffer() = input[input_len..] is non-empty) or "
+            "stores Fatal(StuckOnInput) and reports done from that very call, and StuckOnInput is stored in no other case (R6.2); both "
+            "parsers allocate config.aligned_bufsize() bytes (R6.1); aligned_bufsize has the shape {<=24 -> 24, overflow -> usize::MAX, "
+            "else (n+7) & !7} (R6.3, shape only). Does NOT decide sentence 1 (pairs within B-13 never get stuck, for every segmentation): "
+            "arithmetic over runtime lengths.",
+    "note": "R6.3 checks the expression shape, it does not evaluate it; the pinned config_bufsize test samples values.",
+    "design_ref": "DESIGN.md §4 C06",
+}
+
 PENDING_REASON = "rules for this property are not built yet (build in progress; DESIGN.md §7 gives the order)"
